@@ -30,6 +30,8 @@ class Quantity:
         if isinstance(magnitude, (int,float,Decimal,list,np.ndarray)) or np.isscalar(magnitude):
             self.magnitude = Magnitude(magnitude, abse=abse, rele=rele)
         elif isinstance(magnitude, Magnitude):
+            # the quantity gets a number of its own: the caller's object may serve other quantities as well
+            magnitude = Magnitude(magnitude.value, magnitude.error)
             if abse is not None:
                 magnitude.abse(abse)
             elif rele is not None:
